@@ -4,6 +4,8 @@ package vlib
 
 import (
 	"bufio"
+	"io"
+	"log"
 	"encoding/json"
 	"fmt"
 	"os"
@@ -59,6 +61,10 @@ func Start(id, level string) *Run {
 		r.Seed, _ = strconv.ParseInt(v, 10, 64)
 	}
 	r.loadKnown()
+	// LiteFS logs through the standard logger; keep the check's output to verdict lines.
+	if os.Getenv("VERIF_LOG") == "" && os.Getenv("VERIF_REPLAY") == "" {
+		log.SetOutput(io.Discard)
+	}
 	return r
 }
 
